@@ -93,6 +93,15 @@ impl Z80 {
         }
     }
 
+    /// Resets execution state which is not part of the register file: HALT state,
+    /// pending DD/FD/ED prefix and the one-instruction interrupt inhibit. Should be used
+    /// when the whole CPU state is replaced from outside (e.g. by snapshot loading)
+    pub fn reset_transient_state(&mut self) {
+        self.halted = false;
+        self.skip_interrupt = false;
+        self.active_prefix = Prefix::None;
+    }
+
     /// Pops program counter to the stack. Exposed as a public crate interface to support
     /// 48K SNA loading in `rustzx-core` and fast tape loaders (Perform RET)
     pub fn pop_pc_from_stack(&mut self, bus: &mut impl Z80Bus) {
